@@ -915,16 +915,22 @@ FUNCS = [
                 "Action::DeleteA": "Copia.Reconcile.Action.deleteA", "Action::DeleteB": "Copia.Reconcile.Action.deleteB",
                 "Action::Conflict": "Copia.Reconcile.Action.conflict",
                 "ConflictKind::DeleteVsModify": "Copia.Reconcile.ConflictKind.deleteVsModify", "ConflictKind::BothChanged": "Copia.Reconcile.ConflictKind.bothChanged"}),
-    dict(group="bidir", file="src/bin/copia/bidir.rs", name="run_bisync (from `let mut common = base;` to `arc.save(&apath)?;`)", fn="run_bisync", sig=None,
-         slice=("let mut common = base;", "arc.save(&apath)?;"),
-         lean="def applyAndRecord {P C : Type} [DecidableEq P] [DecidableEq C] (ge : C → C → Bool) (cname : P → C → P)\n"
-              "    (a b base : List (P × Copia.Reconcile.Fp C)) (plan : List (P × Copia.Reconcile.Action)) (fs0 : FS P C) :\n"
+    dict(group="bidir", file="src/bin/copia/bidir.rs", name="run_bisync (from `let plan = reconcile(…);` to `arc.save(&apath)?;`)", fn="run_bisync", sig=None,
+         slice=("let plan = reconcile(&a, &b, &base, trust_base);", "arc.save(&apath)?;"),
+         subst=[("opts.dry_run", "dry_run")],
+         lean="def applyAndRecord {P C : Type} [DecidableEq P] [DecidableEq C] (le : P → P → Bool) (ge : C → C → Bool) (cname : P → C → P)\n"
+              "    (a b base : List (P × Copia.Reconcile.Fp C)) (trust_base dry_run : Bool) (fs0 : FS P C) :\n"
               "    Option (FS P C × Option (List (P × Copia.Reconcile.Fp C)) × Nat) := do\n"
-              "  -- world: the file system under the two roots, the archive file (`recorded`), the number of conflict paths\n"
+              "  -- world: the file system under the two roots, the archive file (`recorded`: none = not written), the number of conflict paths\n"
               "  let mut fs := fs0\n"
               "  let mut recorded := none",
+         retval="(fs, recorded, (0 : Nat))",
          epilogue=["return (fs, recorded, conflict_paths)"],
-         verbatim=[("let mut conflict_paths: Vec<PathBuf> = Vec::new();", "let mut conflict_paths := (0 : Nat)"),
+         calls={"reconcile": lambda a: "(Copia.Gen.Loops.reconcile le " + " ".join(a) + ")",
+                "Ok": lambda a: "OK" if a == ["()"] else (_ for _ in ()).throw(TranslateError("Ok(..) with a value"))},
+         verbatim=[("let conflicts = plan .iter() .filter(|(_, act)| matches!(act, Action::Conflict(_))) .count();", ""),
+                   ("let host = host_id();", ""),
+                   ("let mut conflict_paths: Vec<PathBuf> = Vec::new();", "let mut conflict_paths := (0 : Nat)"),
                    ("apply( root_a, root_b, path, *act, &a, &b, &host, &mut common, &mut conflict_paths, )?;",
                     "let r ← apply ge cname a b { A := fs.1, B := fs.2, common := common } path act\n"
                     "fs := (r.1.A, r.1.B)\n"
@@ -936,7 +942,7 @@ FUNCS = [
                    ("arc.epoch += 1;", ""),
                    ("arc.host_id = host;", ""),
                    ("arc.save(&apath)?;", "recorded := some common")],
-         calls={}, paths={}),
+         paths={}),
     dict(group="plan", file="src/bin/copia/plan.rs", name="build_plan",
          sig="fn build_plan( src: &MetaMap, dst: &MetaMap, excludes: &[String], with_delete: bool, ) -> SyncPlan",
          lean="def buildPlan {K : Type} [DecidableEq K] (le : K → K → Bool) (excl : K → Bool)\n"
@@ -970,7 +976,7 @@ GROUP_HEAD = {
                   "open Copia.Reconcile (lookup dedupAdj)\nopen Copia.LoopSupport"),
     "plan": ("import Copia.Gen.Decisions\nimport Copia.Model.LoopSupport",
              "open Copia.Reconcile (lookup dedupAdj)\nopen Copia.Plan (trimEndSlash splitSlash)\nopen Copia.LoopSupport"),
-    "bidir": ("import Copia.Gen.Decisions\nimport Copia.Model.LoopSupport\nimport Copia.Model.BidirSupport",
+    "bidir": ("import Copia.Gen.Decisions\nimport Copia.Gen.LoopsReconcile\nimport Copia.Model.LoopSupport\nimport Copia.Model.BidirSupport",
               "open Copia.Reconcile (lookup dedupAdj)\nopen Copia.LoopSupport\nopen Copia.Bisync (cIns cDel)\nopen Copia.BidirSupport"),
     "hub": ("import Copia.Model.Hub", "open Copia.Hub (Comp components)"),
     "hubsync": ("import Copia.Model.HubSync", ""),
